@@ -30,7 +30,7 @@ type EntrySpec struct {
 }
 
 type Damage struct {
-	Kind string `json:"kind"` // none | truncate | delete_lt | delete_gt | rename_close | stray_amp | unclosed_quote | invalid_byte | truncate_gzip
+	Kind string `json:"kind"` // none | truncate | delete_lt | delete_gt | rename_close | stray_amp | unclosed_quote | invalid_byte | bad_number | truncate_gzip
 	At   int    `json:"at"`   // truncate: byte offset; others: index of the occurrence to damage (mod count)
 }
 
@@ -162,6 +162,25 @@ func applyDamage(doc []byte, rootEnd int, d Damage) (out []byte, at int, damaged
 			return doc, 0, false
 		}
 		return append(append([]byte{}, doc[:p]...), doc[p+1:]...), p, true
+	case "bad_number": // a digit of a numeric attribute (length, mass, version) becomes the letter O: still well-formed XML
+		p, ok := pickFrom(occurrences(doc, func(i int) bool {
+			if !inRoot(i) || doc[i] < '0' || doc[i] > '9' {
+				return false
+			}
+			q := bytes.LastIndexByte(doc[:i], '"')
+			for _, attr := range []string{` length="`, ` mass="`, ` version="`} {
+				if q+1 >= len(attr) && string(doc[q+1-len(attr):q+1]) == attr && bytes.IndexByte(doc[q+1:i], ' ') < 0 {
+					return true
+				}
+			}
+			return false
+		}))
+		if !ok {
+			return doc, 0, false
+		}
+		o := append([]byte{}, doc...)
+		o[p] = 'O'
+		return o, p, true
 	case "invalid_byte":
 		pos := occurrences(doc, inRoot)
 		p, ok := pickFrom(pos)
@@ -357,7 +376,13 @@ func check(c Case) error {
 			damaged, mustDeliver = true, 0 // how much of the text survives a truncated deflate stream is not known
 		}
 	}
-	if damaged && c.Damage.Kind != "truncate_gzip" && !judgeMalformed(data) {
+	lenient := false
+	if damaged && c.Damage.Kind == "bad_number" {
+		// The text is well-formed XML whose structure is intact; one numeric attribute does not hold a number.
+		// A parser may take that as damage (then: the entries before it, and at least one error) or read the
+		// attribute leniently (then: all k entries and no error). Fewer than k entries without an error is neither.
+		lenient = true
+	} else if damaged && c.Damage.Kind != "truncate_gzip" && !judgeMalformed(data) {
 		vk.Count("damage left the document well-formed by the standard tokenizer (error clause skipped)", 1)
 		damaged = false
 		mustDeliver = 0
@@ -403,6 +428,12 @@ func check(c Case) error {
 		if i < mustDeliver || (truncation && i < len(o.entries)-1) || (!damaged && c.Damage.Kind == "none") {
 			return vk.Errf("%s: delivered entry %d has %s", what, i, diff)
 		}
+	}
+	if lenient {
+		if len(o.errs) == 0 && len(o.entries) != len(c.Entries) {
+			return vk.Errf("%s (a numeric attribute holds a letter): %d of %d entries delivered and no error reported", what, len(o.entries), len(c.Entries))
+		}
+		return nil
 	}
 	if damaged && len(o.errs) == 0 {
 		return vk.Errf("%s: the stream is malformed but no error was reported (%d entries delivered)", what, len(o.entries))
@@ -531,7 +562,7 @@ func genWellFormed(t *rapid.T) Case {
 
 func genDamaged(t *rapid.T) Case {
 	c := Case{Entries: drawEntries(t, 60), Copyright: rapid.Bool().Draw(t, "copyright"), Pretty: rapid.Bool().Draw(t, "pretty"), Consumer: drawConsumer(t)}
-	c.Damage = Damage{Kind: rapid.SampledFrom([]string{"truncate", "truncate", "delete_lt", "delete_gt", "rename_close", "stray_amp", "unclosed_quote", "invalid_byte", "truncate_gzip"}).Draw(t, "damage"),
+	c.Damage = Damage{Kind: rapid.SampledFrom([]string{"truncate", "truncate", "delete_lt", "delete_gt", "rename_close", "stray_amp", "unclosed_quote", "invalid_byte", "bad_number", "truncate_gzip"}).Draw(t, "damage"),
 		At: rapid.IntRange(0, 1<<30).Draw(t, "damage_at")}
 	if c.Damage.Kind == "truncate_gzip" || rapid.IntRange(0, 4).Draw(t, "via_gzip") == 0 {
 		c.ViaGzip = true
